@@ -147,7 +147,7 @@ class ExtSession:
                 bound = hext.ExplicitBound(ch.pick([tys.TypeBound.Copyable, tys.TypeBound.Any], "tb"))
             else:
                 # indices name parameters of the definition (an index beyond the parameter list is an ill-formed definition)
-                bound = hext.FromParamsBound([ch.draw(len(params), "idx") for _ in range(ch.draw(3, "n-idx"))] if params else [])
+                bound = hext.FromParamsBound([ch.draw(len(params), "idx") for _ in range(ch.draw(5, "n-idx"))] if params else [])
             td = hext.TypeDef(name, ch.pick(["", "a type", "né ☃"], "descr"), params, bound)
             r = e.add_type_def(td)
             ctx.ev(i, "add_type_def", {"ext": e.name, "name": name, "params": len(params), "bound": type(bound).__name__, "re-add": bool(reuse)})
